@@ -324,9 +324,9 @@ pub fn run(cfg: &Cfg) -> i32 {
         jobs.push(Box::new(move |w: &mut dyn Write| {
             let mut rep = Report::default();
             if salt == 1 {
-                crate::c02w::wide_val::<MtI64K>("C10", seed, cases, &mut rep);
+                chunked(seed, cases, 500, &mut rep, |s, n, r| crate::c02w::wide_val::<MtI64K>("C10", s, n, r));
             } else {
-                crate::c02w::wide_val::<MtF64K>("C10", seed, cases, &mut rep);
+                chunked(seed, cases, 500, &mut rep, |s, n, r| crate::c02w::wide_val::<MtF64K>("C10", s, n, r));
             }
             rep.emit(w);
         }));
@@ -376,13 +376,13 @@ pub fn run(cfg: &Cfg) -> i32 {
         names.push(format!("rand/i64/{sh}"));
         jobs.push(Box::new(move |w: &mut dyn Write| {
             let mut rep = Report::default();
-            rand_job::<MtI64K>(s1, cases, &mut rep);
+            chunked(s1, cases, 500, &mut rep, |s, n, r| rand_job::<MtI64K>(s, n, r));
             rep.emit(w);
         }));
         names.push(format!("rand/f64/{sh}"));
         jobs.push(Box::new(move |w: &mut dyn Write| {
             let mut rep = Report::default();
-            rand_job::<MtF64K>(s2, cases, &mut rep);
+            chunked(s2, cases, 500, &mut rep, |s, n, r| rand_job::<MtF64K>(s, n, r));
             rep.emit(w);
         }));
         let cases_h = cfg.t(600, 8000);
